@@ -194,6 +194,40 @@ fn split_lines(text: &str, multi: bool) -> Vec<String> {
   }
 }
 
+/// Style "merged": neighbouring rules whose entries in one input or output clause read the same are drawn with ONE cell
+/// spanning them (the gallery draws such tables: `vertical` = the rules follow each other downwards).
+fn merge_equal_neighbours(cells: &mut Vec<Cell>, is_entry: &dyn Fn(&Cell) -> bool, vertical: bool) {
+  loop {
+    let mut found = None;
+    'search: for a in 0..cells.len() {
+      if !is_entry(&cells[a]) {
+        continue;
+      }
+      for b in 0..cells.len() {
+        if a == b || !is_entry(&cells[b]) || cells[a].lines != cells[b].lines {
+          continue;
+        }
+        let adjacent = if vertical { cells[a].c0 == cells[b].c0 && cells[a].c1 == cells[b].c1 && cells[a].r1 + 1 == cells[b].r0 } else { cells[a].r0 == cells[b].r0 && cells[a].r1 == cells[b].r1 && cells[a].c1 + 1 == cells[b].c0 };
+        if adjacent {
+          found = Some((a, b));
+          break 'search;
+        }
+      }
+    }
+    match found {
+      Some((a, b)) => {
+        if vertical {
+          cells[a].r1 = cells[b].r1;
+        } else {
+          cells[a].c1 = cells[b].c1;
+        }
+        cells.remove(b);
+      }
+      None => break,
+    }
+  }
+}
+
 /// The text of a drawing for a table description `t`:
 /// {orient: "rows"|"cols", info: ""|name, infow: "narrow"|"equal", hp: marker, ins: [{expr, vals}], outs: [{name, vals}],
 ///  label: text|null, anns: [name], rules: [{ins: [..], outs: [..], anns: [..]}], style: "tight"|"wide"|"multi"|"multitight", vals: bool}
@@ -203,6 +237,7 @@ pub fn draw_table(t: &J) -> String {
   let multi = style == "multi" || style == "multitight";
   let (pad, centre) = match style.as_str() {
     "tight" | "multitight" => (0, false),
+    "merged" => (1, false),
     "wide" => (2, true),
     _ => (1, false),
   };
@@ -258,6 +293,9 @@ pub fn draw_table(t: &J) -> String {
         cells.push(cell(row, 1 + nin + nout + k, row, 1 + nin + nout + k, &s(&rule["anns"][k]), multi));
       }
     }
+    if style == "merged" {
+      merge_equal_neighbours(&mut cells, &|k: &Cell| k.r0 >= nhdr && k.c0 >= 1 && k.c1 <= nin + nout, true);
+    }
     let mut vdouble = vec![1 + nin];
     if nann > 0 {
       vdouble.push(1 + nin + nout);
@@ -308,6 +346,9 @@ pub fn draw_table(t: &J) -> String {
         cells.push(cell(nin + nout + k, col, nin + nout + k, col, &s(&rule["anns"][k]), multi));
       }
       cells.push(cell(last, col, last, col, &(r + 1).to_string(), false));
+    }
+    if style == "merged" {
+      merge_equal_neighbours(&mut cells, &|k: &Cell| k.c0 >= nhead && k.r1 < nin + nout, false);
     }
     let mut hdouble = vec![nin];
     if nann > 0 {
